@@ -63,7 +63,16 @@ def fixed_histories():
         [{"m": "A", "do": "build", "targets": [0]}, {"m": "B", "do": "restore", "targets": [0], "faults": [{"op": "get", "ns": "cas", "nth": 2, "kind": "err-mid"}]},
          {"m": "B", "do": "restore", "targets": [0]}],
     ]
-    return [(ws, targets, h, "fixed-%d" % i) for i, h in enumerate(hs)]
+    out = [(ws, targets, h, "fixed-%d" % i) for i, h in enumerate(hs)]
+    # boundary sizes / fan-out workload of C07 (70 000-byte file, 32768/32769/65537-byte files, 130 files in one directory)
+    from . import c07
+    ws2, t2 = c07.fixed_workloads()[1]
+    out.append((ws2, t2, [{"m": "A", "do": "build-local", "targets": [1]}, {"m": "A", "do": "build", "targets": [0, 1]},
+                          {"m": "B", "do": "restore", "targets": [0, 1], "faults": [{"op": "get", "ns": "cas", "nth": 40, "kind": "err-mid"}]},
+                          {"m": "B", "do": "restore", "targets": [0, 1]}, {"m": "C", "do": "restore", "targets": [1, 0]}], "fixed-wide"))
+    out.append((ws2, t2, [{"m": "A", "do": "build", "targets": [0, 1], "faults": [{"op": "set", "ns": "cas", "nth": 70, "kind": "err-late"}, {"op": "set", "ns": "cas", "nth": 3, "kind": "err-mid"}]},
+                          {"m": "A", "do": "build", "targets": [0, 1]}, {"m": "B", "do": "restore", "targets": [0, 1]}], "fixed-wide-faults"))
+    return out
 
 
 def gen_history(rng, nt):
@@ -229,7 +238,7 @@ def run(ctx):
     ctx.coverage["evaluations"] = len(reqs)
     ctx.coverage["traces_validated_against_impl"] = len(replays)
     ctx.coverage["distinct_nontrivial"] = len(distinct)
-    ctx.coverage["rule"] = ("6 targeted histories (incl. the Lean witness of F-remote-skip and remote Set failing after the local tier stored) + generated histories over "
+    ctx.coverage["rule"] = ("8 targeted histories (incl. the Lean witness of F-remote-skip and remote Set failing after the local tier stored) + generated histories over "
                             "machines A,B,C: build with remote cache, build without remote cache (local-only blobs), restore into an emptied workspace; remote faults "
                             "scripted per step on get/set/exists (err, err-mid, err-late = read everything then fail, err-after = stored then fail); workloads of 1-3 "
                             "targets sharing contents; non-trivial = distinct history in which some machine restored outputs successfully and the remote stayed closed")
